@@ -57,7 +57,9 @@ def gen_case(rnd, tier: str, i: Any) -> Dict[str, Any]:
             ev = tr["traceEvents"]
             tr["traceEvents"] = ev[:1] + [e for e in ev[1:] if not (e.get("ph") == "X" and e.get("cat") in ("kernel", "gpu_memcpy", "gpu_memset", "cuda_sync"))]
         files[f"rank{r}.json"] = tr
-    return {"files": files, "cfg": {"inc_last": rnd.random() < 0.45, "mp": rnd.random() < 0.3}, "ragged_steps": ragged}
+    # how the flag is spelled: the parameter is Optional[bool]; callers also pass values read from arrays / config files
+    return {"files": files, "cfg": {"inc_last": rnd.random() < 0.45, "mp": rnd.random() < 0.3, "spelling": rnd.choice(["bool", "bool", "none", "numpy", "int"])},
+            "ragged_steps": ragged}
 
 
 def fixed_cases(tier: str):
@@ -84,7 +86,12 @@ def run_case(case: Dict[str, Any], ctx: Any) -> core.CaseResult:
     try:
         core.write_trace_files(d, case["files"])
         t = drv.new_trace(d)
-        ok, _ = drv.guard(res, "load_traces", t.load_traces, include_last_profiler_step=cfg["inc_last"], use_multiprocessing=cfg["mp"])
+        import numpy as _np
+        sp = cfg.get("spelling", "bool")
+        flag = {"bool": cfg["inc_last"], "none": True if cfg["inc_last"] else None, "numpy": _np.bool_(cfg["inc_last"]), "int": int(cfg["inc_last"])}[sp]
+        if sp != "bool":
+            res.counters["flag_not_spelled_as_a_python_bool"] += 1
+        ok, _ = drv.guard(res, "load_traces", t.load_traces, include_last_profiler_step=flag, use_multiprocessing=cfg["mp"])
         if not ok:
             return res
         n_dropped = n_dev_kept = 0
